@@ -371,6 +371,11 @@ func (ch c18) runCase(c *core.Ctx, env *hs.Env, L int, rng *core.Rng, idx int) {
 				}
 				in = append(in, pg.CopyData(rng.Bytes(sz))...)
 			}
+			if rng.Intn(3) == 0 {
+				// the COPY is aborted by a CopyData larger than the message limit (after it has taken chunks)
+				in = append(in, pg.CopyData(rng.Bytes(L+1+rng.Intn(L)))...)
+				c.Count("copy_streams_aborted_by_an_oversized_chunk", 1)
+			}
 			in = append(in, pg.CopyDone()...)
 			c.Count("copy_chunks", int64(chunks))
 			shape += "C "
